@@ -66,8 +66,15 @@ from ebpfcat.xdp import XDP, PacketVar, XDPExitCode
 PROP = "C05"
 LEVEL = "model_checking"
 RULE = ("programs = (a) the program enumerations of the C01 C02 C03 C04 C06 "
-        "C07 C08 C09 harnesses (a deterministic, seed-rotated 1/k slice of "
-        "the large ones, k in the evidence), (b) dedicated families in a "
+        "C07 C08 C09 harnesses as they are now (C01 incl. memory at computed "
+        "addresses; C02/C07/C08/C09 incl. byte-order-prefixed formats; C03 "
+        "incl. else-if chains, bodies that exit, the bit-field comparison "
+        "family; C04 incl. statements inside Dict lookup blocks and "
+        "histories of the program class; C06 one- and two-statement "
+        "programs incl. zero amounts; C07 incl. programs with two and three "
+        "packet-size guards; C08 incl. programs with two maps) - a "
+        "deterministic, seed-rotated 1/k slice of the large ones, k per "
+        "sub-family in the evidence -, (b) dedicated families in a "
         "statement language interpreted onto the real DSL: hash-map variable "
         "as source / destination / in conditions x format x owned-register "
         "context x follow-up statement; Dict update/lookup x key/value "
@@ -724,8 +731,10 @@ def classify_elif(family, shape, norm, code, trig):
     v2 = load(code2)
     if v2 is None:
         return KF_ELIF
-    if "exit-then-else" in trig and \
+    if "exit-then-else" in trig and norm != "unreachable insn N" and \
             normalise(distinctive(v2[1])) == "unreachable insn N":
+        # (with the same complaint before and after, the deviation explains
+        # nothing: that is KF_EXIT by its own rule, or nothing)
         return [KF_ELIF, KF_EXIT]
     return None
 
@@ -2519,8 +2528,8 @@ BUILDERS = {
 # several guards; c08k<n> n declarations on one map / c08x byte-order
 # prefixed formats / c08m two maps
 STRIDES = {
-    "quick": dict(c01=16, c02=6, c03=9, c03x=3, c03bf=8, c04=40, c04in=40,
-                  c04h=60, c06=4, c07=20, c07g=4, c08k2=4, c08k3=40,
+    "quick": dict(c01=18, c02=6, c03=9, c03x=3, c03bf=8, c04=48, c04in=56,
+                  c04h=60, c06=4, c07=24, c07g=4, c08k2=4, c08k3=40,
                   c08m=16, c08x=2),
     "thorough": dict(c01=12, c02=6, c03=4, c03bf=6, c04=30, c04in=60,
                      c04h=80, c06=2, c07=8, c07g=6, c08k3=4, c08m=8),
@@ -2592,8 +2601,10 @@ def run(ctx):
                             + ", ".join(sorted(UNAVAILABLE)))
     for fam, k in sorted(CFG["stride"].items()):
         if k > 1:
+            n = res.cov.get("enumerated:slice:" + fam, 0)
             res.caps_hit.append(f"{fam}: 1/{k} slice of the harness' "
-                                f"enumeration (rotated by the seed)")
+                                f"enumeration (rotated by the seed): {n} "
+                                f"programs")
     res.assumptions += [
         "the verdict is that of this kernel's verifier with root "
         "capabilities (XDP program type, GPL licence)",
@@ -2609,6 +2620,20 @@ def run(ctx):
         "'packet access inside a packet-size guard': offset + size <= n for "
         "`packetSize > n`, `>= n` and minimumPacketSize = n (body) and for "
         "the Else part of `< n`, `<= n`",
+        "programs with several packet-size guards (C07's family): every "
+        "guard reloads the packet pointer, and the verifier then only knows "
+        "what THAT guard's comparison established; an access that relies on "
+        "the promise of an outer guard (or of minimumPacketSize) after an "
+        "inner guard was entered - e.g. byte 19 under minimumPacketSize = 20 "
+        "inside `with self.packetSize > 16:` - is inside the outer guard "
+        "only textually and is read as outside the side condition (the "
+        "reading that demands less of the generator): such programs are "
+        "loaded and counted (outside:access relies on the promise of an "
+        "outer packet-size guard), not judged; all of them are in fact "
+        "refused ('R9 offset is outside of the packet'), all others load",
+        "a program the reused harnesses build from an invalid declaration "
+        "set (a lone re-declaration in C08's prefixed-format family) is not "
+        "a program and is skipped",
         "inside a Dict lookup block the looked-up value must stay usable "
         "across every helper call the generator makes on its own (ktime, "
         "prandom, hash-map and array-map variables; family 'look'); only "
